@@ -297,6 +297,9 @@ class Chain:
             else:
                 width = rng.randint(1, 7)
                 start = "".join(rng.choice("0123456789") for _ in range(width))
+                if rng.random() < 0.04:
+                    # an id whose digits also occur in the parts to its left (the chains run in March 2020 with MAJOR = 1)
+                    start = rng.choice(["2020", "202003", "1", "20", "020", "2", "0320", "2003"])
             steps = ssteps
         else:
             start = EXPANSION_STARTS[(index - short) % len(EXPANSION_STARTS)]
